@@ -274,6 +274,42 @@ Section Check.
   Definition param_accepts (p : vty) (t : sty) : outcome unit :=
     match p with Typed pt => if sty_eqb t pt then Ok tt else Err E_TYPE | Untyped => Ok tt end.
 
+  (* the loops of check_expr, over the checker [f] of sub-expressions *)
+  Definition diff_go (f : texpr -> outcome ety) : list (option texpr) -> sty -> outcome sty :=
+    fix go (l : list (option texpr)) (t : sty) : outcome sty :=
+      match l with
+      | [] => Ok t
+      | None :: l' => go l' t
+      | Some x :: l' =>
+          do tx <- (do y <- f x; as_value y);
+          do t' <- require_same t tx;
+          go l' t'
+      end.
+  Definition pseudos_go (f : texpr -> outcome ety) : list (pseudo * texpr) -> outcome unit :=
+    fix go (l : list (pseudo * texpr)) : outcome unit :=
+      match l with
+      | [] => Ok tt
+      | (k, x) :: l' =>
+          do tx <- (do y <- f x; as_value y);
+          do u_ <- require (ot_pseudo_req T k) tx;
+          go l'
+      end.
+  Definition zip_go (f : texpr -> outcome ety) : list texpr -> list (vty * bool) -> outcome unit :=
+    fix go (l : list texpr) (ps : list (vty * bool)) : outcome unit :=
+      match l, ps with
+      | a :: l', p :: ps' =>
+          do ta <- (do y <- f a; as_value y);
+          do u_ <- param_accepts (fst p) ta;
+          go l' ps'
+      | _, _ => Ok tt
+      end.
+  Definition all_go (f : texpr -> outcome ety) : list texpr -> outcome unit :=
+    fix go (l : list texpr) : outcome unit :=
+      match l with
+      | [] => Ok tt
+      | a :: l' => do u_ <- f a; go l'
+      end.
+
   (* ExprTypeChecker::check_expr (without the debug_assert against compute_ty: see
      Proofs/TypingSound.compute_ty_agrees) *)
   Fixpoint check_expr (e : texpr) : outcome ety :=
@@ -307,27 +343,11 @@ Section Check.
         Ok (Value t)
     | TDiff first rest =>
         do t0 <- (do x <- check_expr first; as_value x);
-        do t <- (fix go (l : list (option texpr)) (t : sty) : outcome sty :=
-                   match l with
-                   | [] => Ok t
-                   | None :: l' => go l' t
-                   | Some x :: l' =>
-                       do tx <- (do y <- check_expr x; as_value y);
-                       do t' <- require_same t tx;
-                       go l' t'
-                   end) rest t0;
+        do t <- diff_go check_expr rest t0;
         Ok (Value t)
     | TLabelProp => Ok (Value TInt)
     | TCall f ps args =>
-        (* pseudo-args *)
-        do u_ <- (fix go (l : list (pseudo * texpr)) : outcome unit :=
-                   match l with
-                   | [] => Ok tt
-                   | (k, x) :: l' =>
-                       do tx <- (do y <- check_expr x; as_value y);
-                       do u_ <- require (ot_pseudo_req T k) tx;
-                       go l'
-                   end) ps;
+        do u_ <- pseudos_go check_expr ps;
         if negb (fn_is_ins G f) && negb (match ps with [] => true | _ => false end) then Err E_TYPE
         else if has_blob ps then
           match args with [] => Ok Void | _ :: _ => Err E_TYPE end
@@ -338,20 +358,9 @@ Section Check.
               if negb (Nat.eqb (length args) (min_args s)) then Err E_TYPE
               else
                 do params <- zip_params s;
-                do u_ <- (fix go (l : list texpr) (ps : list (vty * bool)) : outcome unit :=
-                           match l, ps with
-                           | a :: l', p :: ps' =>
-                               do ta <- (do y <- check_expr a; as_value y);
-                               do u_ <- param_accepts (fst p) ta;
-                               go l' ps'
-                           | _, _ => Ok tt
-                           end) args params;
+                do u_ <- zip_go check_expr args params;
                 (* "Recurse on function arguments" *)
-                do u_ <- (fix go (l : list texpr) : outcome unit :=
-                           match l with
-                           | [] => Ok tt
-                           | a :: l' => do u_ <- check_expr a; go l'
-                           end) args;
+                do u_ <- all_go check_expr args;
                 Ok (sg_ret s)
           end
     end.
